@@ -161,6 +161,8 @@ func ExtraValues() []types.XValue {
 		types.NewXText(" "), types.NewXText("Y"), types.NewXText("h"), types.NewXText("YYYY-MM-DD"), types.NewXText("tt:mm"), types.NewXText("UTC"),
 		types.NewXText("+12065551212"), types.NewXText("tel:+12065551212"), types.NewXText("image/jpeg:http://x.io/a.jpg"), types.NewXText("(["), types.NewXText("a*"),
 		types.NewXText(`{"a":[1,2,{"b":null}]}`), types.NewXText("-0"), types.NewXText("1e5"), types.NewXText("٣"),
+		types.NewXText("Ⱥ"), types.NewXText("ȺȾ"), types.NewXText("ⱥⱦ"), types.NewXText("İstanbul"), types.NewXText("ſ"), types.NewXText("ŉ"), types.NewXText("ẞ"), types.NewXText("ǅ"),
+		types.NewXText(strings.Repeat("9", 100)), types.NewXText("1" + strings.Repeat("0", 64)),
 		dec("0.5"), dec("-0.5"), dec("3"), dec("9"), dec("10"), dec("100"), dec("65"), dec("1114112"), dec("55296"), dec("9223372036854775807"), dec("9223372036854775808"), dec("-9223372036854775809"),
 		dec("253402300800"), dec("-62135596801"), dec("1e-7"),
 		types.XBooleanFalse,
